@@ -27,9 +27,16 @@ ASSUMPTIONS = [
 DENS = [1, 2, 3, 4, 5, 8, 10]
 
 
+BIG = (257, 256)  # 65 792 cells: beyond 2^16 elements
+
+
 def _payload(v, grid, vscale=1.0):
     if not grid:
         return float(v)
+    if grid == "big":
+        out = np.full(BIG, float(v))
+        out[-1, -1] = v + 0.5 * vscale
+        return out
     return np.array([[v], [v + 0.5 * vscale]], dtype=float)  # data_shape (2, 1) of UniformGrid((3, 2))
 
 
@@ -64,7 +71,7 @@ def check(case, ctx):
     spec, grid, ops = case["adapter"], case["grid"], case["ops"]
     kind = spec[0]
     p = spec[1] if kind == "step" else None
-    g = fm.UniformGrid((3, 2)) if grid else fm.NoGrid()
+    g = fm.UniformGrid((BIG[0] + 1, BIG[1] + 1)) if grid == "big" else (fm.UniformGrid((3, 2)) if grid else fm.NoGrid())
     un = case.get("units", "m")  # also units with an offset (degC, degF): differences of such quantities are deltas
     if un != "m":
         ctx.event(f"units={un!r}")
@@ -160,7 +167,7 @@ def check(case, ctx):
         last_req = t
     link.finalize()
     ctx.event(f"adapter={kind}")
-    ctx.event("gridded" if grid else "scalar")
+    ctx.event("big-grid" if grid == "big" else ("gridded" if grid else "scalar"))
     ctx.nontrivial(len(pubs) >= 4 and inside and later_after_evict)
 
 
@@ -221,8 +228,21 @@ def backlog_case(draw):
     return {"adapter": draw(adapter_st), "grid": draw(st.booleans()), "ops": ops}
 
 
+@st.composite
+def big_grid_case(draw):
+    """payloads of 65 792 cells, several requests per interval and exactly on publications"""
+    ops = [["push", 10, 1.0]]
+    for k in range(draw(st.integers(3, 6))):
+        ops.append(["push", draw(st.sampled_from([10, 30, 7])), float(draw(st.integers(-50, 50)))])
+        for _ in range(draw(st.integers(1, 3))):
+            num, den = draw(st.one_of(st.sampled_from([(0, 1), (1, 1)]), frac_st))
+            ops.append(["pull", 0, num, den])
+    return {"adapter": draw(adapter_st), "grid": "big", "ops": ops}
+
+
 def parts():
     return [
+        Part("big_grids", hs.with_epoch(check), strategy=hs.plus_epoch(big_grid_case()), budget={"quick": 60, "thorough": 1500}, shrink_budget=60),
         Part("histories", hs.with_epoch(check), strategy=hs.plus_epoch(case_st()), strategy_thorough=hs.plus_epoch(case_st(max_ops=80)), budget={"quick": 2400, "thorough": 80000}, fuzz={"thorough": 10000}),
         Part("backlog", hs.with_epoch(check), strategy=hs.plus_epoch(backlog_case()), budget={"quick": 300, "thorough": 12000}, shrink_budget=150),
     ]
